@@ -97,6 +97,9 @@ type Config struct {
 	// FreshCompressor (custom compression only): the caller's CustomCompressor hands out a new
 	// compressor instance on every Compressor() call, as a factory-style implementation would.
 	FreshCompressor bool `json:",omitempty"`
+	// HeaderCompressor (custom compression only): the caller's compressor emits a per-stream header inside Reset,
+	// before any data is written to it, as keyed or framed codecs do.
+	HeaderCompressor bool `json:",omitempty"`
 	// CallerReuses: not a writer option but a way of calling: the caller keeps ONE Header, Schema, Channel,
 	// Message, Attachment and Metadata struct (and one payload buffer and map per kind), refills it for every
 	// call and overwrites it as soon as the call has returned, as a recording loop that avoids allocation does.
@@ -107,10 +110,17 @@ type Config struct {
 
 const CustomCompression = "vxor"
 
+// CustomCompressionHdr names the variant of the harness compressor that starts every stream with a two-byte
+// header, written the moment the compressor is pointed at its destination (Reset).
+const CustomCompressionHdr = "vxorh"
+
 // CompressionString is the string stored in chunk records for this configuration.
 func (k Config) CompressionString() string {
 	switch k.Compression {
 	case "custom":
+		if k.HeaderCompressor {
+			return CustomCompressionHdr
+		}
 		return CustomCompression
 	case "lz4-nochecksum":
 		return "lz4"
